@@ -85,9 +85,15 @@ def _make_objective(spec):
             return (1.0e6 + 1.0e-3 * four(x)) if tiny else (1000.0 + four(x))
 
     elif kind == "sphere":
+        # half of them: optimum at the origin when the box contains it — populations converge to coordinates
+        # of magnitude 1e-3 .. 1e-9 and to exact zeros (anything that rounds, snaps or formats small numbers)
+        at_origin = int(spec.get("seed", 0)) % 2 == 1 and bool(np.all(lo < 0) and np.all(hi > 0))
 
         def f(x):
-            z = (np.asarray(x, dtype=float) - lo) / (hi - lo) - 0.5
+            if at_origin:
+                z = np.asarray(x, dtype=float) / (hi - lo)
+            else:
+                z = (np.asarray(x, dtype=float) - lo) / (hi - lo) - 0.5
             return float(np.sum(z * z))
 
     else:
@@ -175,7 +181,7 @@ def rand_spec(rng, **force):
     from . import focus as _focus
 
     fc = _focus.get()  # change-directed generation: inactive (no extra draws) on the recorded source
-    nlev = int(force.get("nlev", rng.choice([1, 2, 2, 2, 3, 3, 3])))
+    nlev = int(force.get("nlev", rng.choice([1, 2, 2, 2, 3, 3, 3, 4])))
     if fc.active and fc.sprout and "nlev" not in force and rng.random() < 0.5:
         nlev = 3
     d = int(force.get("dim", rng.integers(2, 4)))
@@ -226,6 +232,8 @@ def rand_spec(rng, **force):
             L["p_mutation"] = float(rng.choice([1.0, 1.0, 0.6]))
             if k == "mwea":
                 L["pop_size"] = max(L["pop_size"], 10)
+                # committee sizes that divide the population size and ones that do not
+                L["k_elites"] = [1, 2, 3, 4][L["pop_size"] % 4]
         if k == "sobol":
             L["pop_size"] = 8
         if k == "de":
@@ -461,7 +469,7 @@ def build(spec, run, plain=None):
     elif gk == "SingularProblemEvalLimitReached":
         gsc = GS.SingularProblemEvalLimitReached(g["limit"])
     elif gk == "FitnessEvalLimitReached":
-        w = {"root": GS.WeightingStrategy.ROOT, "equal": GS.WeightingStrategy.EQUAL, "list": [1.0, 0.5, 0.25][:nlev]}[g["weights"]]
+        w = {"root": GS.WeightingStrategy.ROOT, "equal": GS.WeightingStrategy.EQUAL, "list": [1.0, 0.5, 0.25, 0.125][:nlev]}[g["weights"]]
         gsc = GS.FitnessEvalLimitReached(g["limit"], weights=w)
     elif gk == "NoActiveNonrootDemes":
         gsc = GS.NoActiveNonrootDemes(g["n"])
@@ -532,12 +540,18 @@ def snap_report(tree):
 def snap_tree(tree, order, full=True):
     demes = {d.id: d for _, d in tree.all_demes}
     ids = [i for i in order if i in demes] + [i for i in demes if i not in order]
+    # the deme records are read before the report is rendered, and once more after it: rendering
+    # summary() / tree() must not change them (C20)
+    before = [snap_deme(demes[i], full) for i in ids]
+    report = snap_report(tree) if full else None
+    side_effect = bool(full) and [snap_deme(demes[i], full) for i in ids] != before
     return {
         "metaepoch": int(tree.metaepoch_count),
         "n_evals": int(tree.n_evaluations),
         "levels": [[d.id for d in lv] for lv in tree.levels],
-        "report": snap_report(tree) if full else None,
-        "demes": [snap_deme(demes[i], full) for i in ids],
+        "report": report,
+        "demes": before,
+        "report_side_effect": side_effect,
     }
 
 
@@ -899,6 +913,10 @@ def monitored_run(spec, pids):
             res["C11"] = res["C11"] + M.c11_cma(run, cma_log)
     if "C20" in pids:
         res["C20"] = s20["viol"]
+        for k, sn in enumerate(run.snaps):
+            if sn.get("report_side_effect"):
+                res["C20"] = res["C20"] + [M.V("C20/report-changed-state", f"boundary {k}: rendering summary() / tree() changed the recorded state of a deme (histories, genomes, fitness values, counters or flags)")]
+                break
     if "C18" in pids:
         res["C18"] = M.c18(run) + [v for v in M.c06(run) if v["signature"].startswith("C18")]
     return run, res
@@ -917,8 +935,13 @@ def corpus_specs():
 def _monitor_worker(args):
     """one traced run under the monitors (runs in a pool process); returns plain data"""
     spec, pid, also = args
+    from .common import RunTimeout, run_limit
+
     try:
-        run, res = monitored_run(spec, {pid, *also})
+        with run_limit():
+            run, res = monitored_run(spec, {pid, *also})
+    except RunTimeout as e:
+        return {"status": "timeout", "detail": str(e)}
     except Exception as e:  # the run itself crashed: report, with the spec as replay
         import traceback
 
@@ -955,6 +978,9 @@ def monitor_batch(ctx, pid, n, salt=11, name=None, force=None, also=()):
         if r["status"] == "crash":
             sl.violations.append({"signature": f"{pid}/run-crashed", "detail": r["detail"], "replay": {"spec": spec}})
             continue
+        if r["status"] == "timeout":
+            sl.violations.append({"signature": f"{pid}/run-did-not-terminate", "detail": f"a run capped at {spec.get('max_steps')} metaepochs gave {r['detail']} (every generated run takes well under a second)", "replay": {"spec": spec, "describe": describe(spec)}})
+            continue
         sl.cases += 1
         d = describe(spec)
         sl.count("engines:" + ">".join(d["engines"]))
@@ -970,6 +996,56 @@ def monitor_batch(ctx, pid, n, salt=11, name=None, force=None, also=()):
             sl.violations.append({"signature": v["signature"], "detail": v["detail"], "replay": {"spec": spec, "describe": d}})
         if i < 2:
             sl.sample({"spec": d, "metaepochs": r["steps"], "demes": r["demes"], "events": r["events"]})
+    return sl
+
+
+NAN_SAFE_ENGINES = ["sea", "seax", "ga", "adapt", "de", "ded", "shade"]
+
+
+def _nan_monitor_worker(args):
+    r = _monitor_worker(args)
+    if r["status"] == "crash":
+        # with NaN fitness the ordering of individuals is random by design; a sprouting filter that then
+        # indexes past its candidate list is not this property's business
+        return {"status": "env", "exc": "crash-under-NaN-ordering"}
+    return r
+
+
+def nan_monitor_batch(ctx, pid, n, salt=53, name=None):
+    """monitored runs on an objective with NaN holes (NaN is a legal fitness: it is ordered as worst,
+    two NaNs by a coin flip).  Monitors only — the model cannot follow a random ordering."""
+    from .common import Slice, pmap
+
+    sl = Slice(name or f"traced-runs-monitor-{pid}(objective with NaN holes)")
+    sl.is_trace = True
+    rng = ctx.rng(salt)
+    n = ctx.boost(n) if hasattr(ctx, "boost") else n
+    specs = []
+    for i in range(n):
+        nlev = int(rng.choice([1, 2, 2, 3]))
+        spec = rand_spec(rng, objective="holes", nlev=nlev, engines={l: NAN_SAFE_ENGINES for l in range(4)}, max_steps=8)
+        if i % 2:
+            spec["nan_slab"] = (0.15, 0.85)
+        if spec["gsc"]["kind"] == "SingularProblemPrecisionReached":
+            spec["gsc"] = {"kind": "MetaepochLimit", "limit": 6}
+        specs.append(spec)
+    for i, (spec, r) in enumerate(zip(specs, pmap(_nan_monitor_worker, [(spec, pid, ()) for spec in specs], chunksize=2))):
+        if r["status"] == "env":
+            sl.skipped += 1
+            sl.count("skipped:" + r["exc"])
+            continue
+        if r["status"] == "timeout":
+            sl.violations.append({"signature": f"{pid}/run-did-not-terminate", "detail": r["detail"], "replay": {"spec": spec}})
+            continue
+        sl.cases += 1
+        d = describe(spec)
+        sl.count("engines:" + ">".join(d["engines"]))
+        if len(r["demes"]) >= 2 and r["steps"] >= 2:
+            sl.nontrivial.add(spec_id(spec))
+        for v in r["viol"]:
+            sl.violations.append({"signature": v["signature"], "detail": v["detail"], "replay": {"spec": spec, "describe": d}})
+        if i < 1:
+            sl.sample({"spec": d, "metaepochs": r["steps"], "demes": r["demes"]})
     return sl
 
 
